@@ -80,9 +80,9 @@ Section OneD.
     cbn [fold_left length]. rewrite IH, psum_shift. cbn [nth]. ring.
   Qed.
 
-  (* average() is the arithmetic mean of the UNsmoothed bin averages *)
-  Lemma average1_is_mean gd gc : gd <> [] ->
-    average1 Rops sc gd gc = psum (ghat false gd gc) (length gd) / INR (length gd).
+  (* average(smoothed) is the arithmetic mean of the (smoothed) bin values *)
+  Lemma average1_is_mean sm gd gc : gd <> [] ->
+    average1 Rops sc sm gd gc = psum (ghat sm gd gc) (length gd) / INR (length gd).
   Proof.
     intros Hne. unfold average1. destruct gd as [|d gd']; [contradiction|].
     set (gd := d :: gd') in *. cbn [ndiv nadd n0 nofZ Rops].
@@ -137,13 +137,13 @@ Section OneD.
   Qed.
 
   Lemma integrate1_spec (per sm : bool) w gd gc :
-    let corr := if per then average1 Rops sc gd gc else 0 in
+    let corr := if per then average1 Rops sc sm gd gc else 0 in
     let pmf := integrate1 Rops sc per sm w gd gc in
     length pmf = (if per then length gd else S (length gd)) /\
     forall i, (i < length pmf)%nat -> nth i pmf 0 = psum (fun j => (ghat sm gd gc j - corr) * w) i.
   Proof.
     cbv zeta. unfold integrate1. cbn [n0 Rops].
-    set (corr := if per then average1 Rops sc gd gc else 0).
+    set (corr := if per then average1 Rops sc sm gd gc else 0).
     pose proof (cumsum_spec w corr (vals1 Rops sc sm gd gc) 0) as [H1 [H2 H3]].
     destruct (cumsum Rops w corr (vals1 Rops sc sm gd gc) 0) as [l s]. cbn [fst snd] in *.
     rewrite vals1_length in *. unfold ghat.
@@ -157,44 +157,135 @@ Section OneD.
   Qed.
 
   Lemma closing1_spec (per sm : bool) w gd gc :
-    let corr := if per then average1 Rops sc gd gc else 0 in
+    let corr := if per then average1 Rops sc sm gd gc else 0 in
     closing1 Rops sc per sm w gd gc = psum (fun j => (ghat sm gd gc j - corr) * w) (length gd).
   Proof.
     cbv zeta. unfold closing1. cbn [n0 Rops].
-    set (corr := if per then average1 Rops sc gd gc else 0).
+    set (corr := if per then average1 Rops sc sm gd gc else 0).
     pose proof (cumsum_spec w corr (vals1 Rops sc sm gd gc) 0) as [H1 [H2 H3]].
     rewrite H3, vals1_length. unfold ghat. ring.
   Qed.
 
-  (* periodic closure holds when the gradients that are integrated are the ones that were averaged *)
+  (* periodic closure: the mean that is removed is the mean of the gradients that are integrated *)
   Lemma periodic_closes sm w gd gc : gd <> [] ->
-    vals1 Rops sc sm gd gc = vals1 Rops sc false gd gc ->
     closing1 Rops sc true sm w gd gc = 0.
   Proof.
-    intros Hne Hv. rewrite closing1_spec. rewrite psum_sub_const.
-    rewrite average1_is_mean by auto. unfold ghat. rewrite Hv.
+    intros Hne. rewrite closing1_spec. rewrite psum_sub_const.
+    rewrite average1_is_mean by auto.
     assert (Hn : INR (length gd) <> 0).
     { apply not_0_INR. destruct gd; [contradiction | cbn [length]; lia]. }
     field. auto.
   Qed.
-End OneD.
 
-(* the witness: two bins, counts 1 and 2, sums 1 and 0, minSamples 0, fullSamples 2, smoothed:
-   smoothed gradients (1/2, 0), unsmoothed mean 1/2: the loop ends at -1/2 instead of 0 *)
-Lemma periodic_smoothed_does_not_close :
-  closing1 Rops (mkSmooth true 0 2) true true 1 [1; 0] [1%Z; 2%Z] = - (1 / 2).
-Proof.
-  unfold closing1, average1, vals1, cumsum, out_fact, smooth_inverse_weight.
-  cbn [s_has_samples s_min s_full fold_left length snd fst
-       n0 n1 nadd nsub nmul ndiv nofZ nltb nleb Rops Z.of_nat Pos.of_succ_nat Pos.succ Z.sub Z.opp Z.add Z.pos_sub].
-  repeat match goal with
-  | |- context [Rleb' ?a ?b] =>
-      first [ rewrite (proj2 (Rleb_true a b)) by lra | rewrite (proj2 (Rleb_false a b)) by lra ]
-  | |- context [Rltb ?a ?b] =>
-      first [ rewrite (proj2 (Rltb_true a b)) by lra | rewrite (proj2 (Rltb_false a b)) by lra ]
-  end.
-  field.
-Qed.
+  (* ---------------- write_1D_integral (.ti.pmf) *)
+  Definition tval (gd : list R) (gc : list Z) (j : nat) : R := ti_val Rops sc (nth j gd 0) (nth j gc 0%Z).
+  (* the partial sums that the loop goes through *)
+  Definition tsum (per : bool) w gd gc (i : nat) : R :=
+    psum (fun j => (tval gd gc j - (if per then average1 Rops sc false gd gc else 0)) * w) i.
+
+  Lemma nth_tl {A} (l : list A) j d : nth j (tl l) d = nth (S j) l d.
+  Proof. destruct l; [destruct j; reflexivity | reflexivity]. Qed.
+
+  Lemma ti_loop_spec w corr : forall gd gc I M,
+    let l := fst (ti_loop Rops sc w corr gd gc I M) in
+    let m := snd (ti_loop Rops sc w corr gd gc I M) in
+    length l = length gd /\
+    (forall i, (i < length gd)%nat -> nth i l 0 = I + psum (fun j => (tval gd gc j - corr) * w) (S i)) /\
+    m <= M /\ (forall i, (i < length gd)%nat -> m <= nth i l 0) /\
+    (m = M \/ exists i, (i < length gd)%nat /\ m = nth i l 0).
+  Proof.
+    induction gd as [|d gd IH]; intros gc I M; cbv zeta.
+    - cbn [ti_loop fst snd length]. repeat split; try (intros i Hi; lia); [lra | left; reflexivity].
+    - cbn [ti_loop].
+      set (c := match gc with c :: _ => c | [] => 0%Z end).
+      assert (Hc : c = nth 0 gc 0%Z) by (destruct gc; reflexivity).
+      set (I' := nadd Rops I (nmul Rops (nsub Rops (ti_val Rops sc d c) corr) w)).
+      set (M' := if nltb Rops I' M then I' else M).
+      specialize (IH (tl gc) I' M'). cbv zeta in IH.
+      destruct (ti_loop Rops sc w corr gd (tl gc) I' M') as [l m]. cbn [fst snd length] in *.
+      destruct IH as [IH1 [IH2 [IH3 [IH4 IH5]]]].
+      assert (HI' : I' = I + (tval (d :: gd) gc 0 - corr) * w).
+      { unfold I', tval. cbn [nth nadd nmul nsub Rops]. rewrite Hc. reflexivity. }
+      assert (Hsh : forall k, psum (fun j => (tval (d :: gd) gc j - corr) * w) (S k) =
+                              (tval (d :: gd) gc 0 - corr) * w + psum (fun j => (tval gd (tl gc) j - corr) * w) k).
+      { intros k. rewrite psum_shift. f_equal. apply psum_ext. intros j Hj. unfold tval. cbn [nth]. rewrite nth_tl. reflexivity. }
+      assert (HM' : M' <= M /\ M' <= I' /\ (M' = M \/ M' = I')).
+      { unfold M'. cbn [nltb Rops]. destruct (Rltb I' M) eqn:E.
+        - apply Rltb_true in E. lra.
+        - apply Rltb_false in E. lra. }
+      split; [rewrite IH1; reflexivity|]. split; [|split; [|split]].
+      + intros i Hi. destruct i as [|i]; cbn [nth].
+        * rewrite HI'. cbn [psum]. ring.
+        * rewrite IH2 by lia. rewrite HI', (Hsh (S i)). ring.
+      + lra.
+      + intros i Hi. destruct i as [|i]; cbn [nth]; [lra | apply IH4; lia].
+      + destruct IH5 as [E | [i [Hi E]]].
+        * destruct HM' as [_ [_ [E' | E']]]; [left; lra | right; exists 0%nat; split; [lia | cbn [nth]; lra]].
+        * right. exists (S i). split; [lia | exact E].
+  Qed.
+
+  (* the written column: n+1 values; entry i is the partial sum up to bin i minus the smallest partial sum *)
+  Lemma ti_integral1_spec per w gd gc :
+    let out := ti_integral1 Rops sc per w gd gc in
+    length out = S (length gd) /\
+    exists m, (forall i, (i <= length gd)%nat -> nth i out 0 = tsum per w gd gc i - m) /\
+              (forall i, (i <= length gd)%nat -> m <= tsum per w gd gc i) /\
+              (exists k, (k <= length gd)%nat /\ m = tsum per w gd gc k).
+  Proof.
+    cbv zeta. unfold ti_integral1. cbn [n0 Rops].
+    set (corr := if per then average1 Rops sc false gd gc else 0).
+    pose proof (ti_loop_spec w corr gd gc 0 0) as H. cbv zeta in H.
+    destruct (ti_loop Rops sc w corr gd gc 0 0) as [l m]. cbn [fst snd] in H.
+    destruct H as [H1 [H2 [H3 [H4 H5]]]].
+    split; [rewrite map_length; cbn [length]; rewrite H1; reflexivity|].
+    assert (Hts : forall i, (i < length gd)%nat -> nth i l 0 = tsum per w gd gc (S i)).
+    { intros i Hi. rewrite H2 by auto. unfold tsum. fold corr. ring. }
+    exists m. split; [|split].
+    - intros i Hi. rewrite (nth_indep _ 0 ((fun v => nsub Rops v m) 0)) by (rewrite map_length; cbn [length]; lia).
+      rewrite (map_nth (fun v => nsub Rops v m)).
+      cbn [nsub Rops]. destruct i as [|i]; cbn [nth].
+      + unfold tsum. cbn [psum]. ring.
+      + rewrite Hts by lia. ring.
+    - intros i Hi. destruct i as [|i]; [unfold tsum; cbn [psum]; lra|].
+      rewrite <- Hts by lia. apply H4. lia.
+    - destruct H5 as [E | [i [Hi E]]].
+      + exists 0%nat. split; [lia | unfold tsum; cbn [psum]; lra].
+      + exists (S i). split; [lia | rewrite <- Hts by lia; exact E].
+  Qed.
+
+  (* for non-negative counts the bin value of write_1D_integral is the unsmoothed bin average *)
+  Lemma tval_ghat gd : forall gc j, Forall (fun c => 0 <= c)%Z gc -> (j < length gd)%nat ->
+    tval gd gc j = ghat false gd gc j.
+  Proof.
+    unfold tval, ghat. induction gd as [|d gd IH]; intros gc j Hc Hj; [cbn in Hj; lia|].
+    destruct gc as [|c gc]; cbn [vals1].
+    - destruct j as [|j]; cbn [nth].
+      + unfold ti_val, out_fact. destruct (s_has_samples sc); cbn [nmul nltb ndiv n0 n1 nofZ Rops Z.eqb].
+        * rewrite (proj2 (Rltb_false 0 0)) by lra. ring.
+        * rewrite (proj2 (Rltb_true 0 1)) by lra. field.
+      + specialize (IH [] j Hc). destruct j; cbn [nth] in IH |- *; apply IH; cbn [length] in *; lia.
+    - inversion Hc as [|c' gc' Hc0 Hc']; subst.
+      destruct j as [|j]; cbn [nth].
+      + unfold ti_val, out_fact. destruct (s_has_samples sc); cbn [nmul nltb ndiv n0 n1 nofZ Rops].
+        * destruct (Z.eqb_spec c 0) as [->|Hne].
+          -- rewrite (proj2 (Rltb_false 0 0)) by lra. ring.
+          -- assert (0 < IZR c) by (apply IZR_lt; lia).
+             rewrite (proj2 (Rltb_true 0 (IZR c))) by auto. field. lra.
+        * rewrite (proj2 (Rltb_true 0 1)) by lra. field.
+      + apply IH; cbn [length] in *; [auto | lia].
+  Qed.
+
+  (* periodic: the last partial sum is 0, so the last written value equals the first *)
+  Lemma tsum_periodic_closes w gd gc : gd <> [] -> Forall (fun c => 0 <= c)%Z gc ->
+    tsum true w gd gc (length gd) = 0.
+  Proof.
+    intros Hne Hc. unfold tsum. rewrite psum_sub_const. rewrite average1_is_mean by auto.
+    assert (Hn : INR (length gd) <> 0).
+    { apply not_0_INR. destruct gd; [contradiction | cbn [length]; lia]. }
+    rewrite (psum_ext (tval gd gc) (ghat false gd gc)) by (intros j Hj; apply tval_ghat; auto).
+    field. auto.
+  Qed.
+End OneD.
 
 (* ------------------------------------------------------------------ the empty state is consistent (reals) *)
 Lemma init2_consistent sc sm (sh : shape2 (T:=R)) : consistent2 Rops sc sm sh (init2 Rops).
